@@ -125,4 +125,15 @@ theorem C10_finding_D5 :
     ((seqRun [] 60 { env := {} } (program d5Ctx d5Prog {})).2.env.poison 0) = false := by
   decide
 
+/-- the same finding through `Poisonable`'s own `scoped_*`: they set the flag of the wrapper they are
+called on only; a `Poisonable` nested inside (directly, or as a member of the wrapped collection)
+stays unpoisoned, while the guard route poisons every level -/
+def d5bCtx : Ctx := { W := { addr := fun x => x }, colls := [.poisonable 0 (.poisonable 1 (.mutex 0))] }
+
+-- @theorem C10_finding_D5_nested_poisonable : finding D5, second route — a user panic inside the scoped closure of a Poisonable that wraps another Poisonable poisons the outer one and leaves the inner one unpoisoned
+theorem C10_finding_D5_nested_poisonable :
+    let e := (seqRun [] 60 { env := {} } (program d5bCtx d5Prog {})).2.env
+    e.poison 0 = true ∧ e.poison 1 = false := by
+  decide
+
 end HLV
